@@ -71,6 +71,12 @@ func genC14(p *sim.Plan, r *sim.Rand, tier string) {
 		at := k*I*1_000_000 + off
 		p.Faults = []sim.Fault{{At: at, Kind: "blackhole", Target: "*", Dir: dir}}
 		p.Horizon = at + (I+T)*1_000_000 + int64(90*time.Second)
+		// application messages before the fault, at drawn phases of the heartbeat (in half of the plans)
+		if r.Bool(0.5) && at > 10_000_000 {
+			for i := 0; i < r.Range(1, 6); i++ {
+				p.Ops = append(p.Ops, sim.Op{At: r.I64n(at), Actor: r.Intn(2), Kind: "msg", I: []int64{int64(i), int64(r.Range(0, 200))}})
+			}
+		}
 	case "live":
 		if p.C("lat_us") > 35000 {
 			p.Set("lat_us", 35000)
@@ -117,6 +123,9 @@ func fixedC14(tier string, seed uint64) []*sim.Plan {
 				p.Stall = sim.StallCfg{BudgetNs: 0}
 				at := int64(900_000_000) + int64(s)*int64(1_200_000_000)/int64(steps)
 				p.Faults = []sim.Fault{{At: at, Kind: "blackhole", Target: "*", Dir: dir}}
+				if s%2 == 1 {
+					p.Ops = []sim.Op{{At: 300_000_000, Actor: 0, Kind: "msg", I: []int64{0, 10}}, {At: 450_000_000, Actor: 1, Kind: "msg", I: []int64{1, 10}}}
+				}
 				p.Horizon = at + int64(2*time.Second) + int64(90*time.Second)
 				p.CfgS["fixed"] = fmt.Sprintf("tr=%d dir=%q step=%d/%d", tr, dir, s, steps)
 				out = append(out, p)
@@ -146,7 +155,8 @@ func runC14(e *sim.Env) {
 			UpgradeDone: func(string) { upgraded = e.Now(); e.Log(0, "cli.upgraded", "") }})
 	})
 
-	if p.Mode == "live" {
+	if p.Mode == "live" || len(p.Ops) > 0 {
+		// (dead mode: application traffic before the link goes silent - data is no substitute for a heartbeat)
 		for _, op := range p.Ops {
 			op := op
 			e.Go(func() {
